@@ -1320,6 +1320,9 @@ def decorate_for_help(d, rnd, hostile=None):
         if t["kind"] == "cmd":
             for c in t["cmds"]:
                 c["help"] = f"HELP-{tag}-cmd-{c['names'][0]}"
+                # a command under `hide` (not when it is the only one: the usage line would lose its COMMAND)
+                if len(t["cmds"]) > 1 and rnd.random() < 0.12 and not any(x.get("hidden") for x in t["cmds"]):
+                    c["hidden"] = True
                 # a command without a help text of its own is listed with the first line of its description, here a
                 # Doc of several styled fragments
                 if rnd.random() < 0.2:
